@@ -169,6 +169,9 @@ def df_menu():
         add("aggregate", f"mutating function:{c}", lambda d, a, c=c: _grouped_same(d, c, lambda g: g.aggregate(m=_overwriting, x=di.first("i"))))
         for j in ("left_join", "inner_join", "semi_join", "anti_join", "full_join"):
             add(j, c, lambda d, a, c=c, j=j: getattr(d, j)(a[0], c), 1)
+    # called on a receiver that IS grouped (the [grouped receiver] variants): the mark is part of the receiver and stays
+    add("aggregate", "receiver as it is", lambda d, a: d.aggregate(n=di.count(), x=di.first("i")) if d._group_colnames else None)
+    add("modify", "receiver as it is", lambda d, a: d.modify(m=lambda x: x.nrow))
     add("sort", "two keys", lambda d, a: d.sort(s=1, f=-1))
     add("unique", "all", lambda d, a: d.unique())
     add("anti_join", "renamed", lambda d, a: d.anti_join(a[0].rename(k2="i"), ("i", "k2")), 1)
@@ -306,6 +309,11 @@ def vec_menu():
     add("as_string", "", lambda v, a: v.as_string(), {"i8", "f8", "b1", "str", "U", "D", "us", "u1"})
     add("concat", "self", lambda v, a: v.concat(v))
     add("concat", "other", lambda v, a: v.concat(a[0]))
+    # an element-less vector on either side, nothing to append at all: the result is still a new vector
+    add("concat", "empty other", lambda v, a: v.concat(a[0].head(0)))
+    add("concat", "empty receiver", lambda v, a: v.head(0).concat(v))
+    add("concat", "empty others around", lambda v, a: v.concat(a[0].head(0), a[0], a[0].head(0)))
+    add("concat", "none", lambda v, a: v.concat())
     add("drop_na", "", lambda v, a: v.drop_na())
     add("equal", "", lambda v, a: v.equal(a[0]))
     add("fast", "", lambda v, a: Vector.fast(v))
